@@ -517,6 +517,9 @@ EXTRA5 = {
  "C09": dict(
   technique="; family 'bound' of MCTLSCodec.tla (1836 cases): every tag bound at both ends of every width class, 0 included, for maxval, the three spellings of a vector tag, []uint16 and minlen = maxlen, as ...WithParams params, as a member, framed, and as a chosen or unchosen select arm; the random generator draws one-byte bounds from 0 and all tag spellings",
   note=" Named clause MaxlenZeroIsWidth (maxlen:0 is read as 'no range given', symmetrically in both directions); the allocation bound adds 256 B per input byte for vectors of structs."),
+ "C14": dict(
+  technique="; ChainStorePaging.tla: the page dimension (length classes around powers of two and multiples of 4 x start alignment x cache configuration and state x unfixable-leaf position; per-leaf work split among any workers in any order; PageWhole, UnfixableIsError, PlanIrrelevant; defects tailDropped / laterWorkerErrorLost refuted); simulated behaviours replayed on twin instances over a 300-leaf (thorough 700) tree, every entry of every response byte for byte",
+  note=" Page lengths 1..270 (thorough 530) by classes, not every length; alignment modelled for the default flag value."),
 }
 for _pid, _e in EXTRA5.items():
     EXTRA4.setdefault(_pid, {})
